@@ -8,6 +8,12 @@ NOT_APPLICABLE = {f"C{i:02d}": _PENDING for i in range(1, 21)}
 TRUST = "Trusted: rustc/std float semantics, the harness' own oracle code, the python driver. Held = held on the executions observed (exhaustive only for the sub-domains named in evidence)."
 
 CLAIMS = {
+    "C08": {
+        "text": "Formula + identity monitor: for every Premultiply type (LinSrgb, Srgb, Xyz, LinLuma, Lms with blend modes; Yxy, Lab, Luv, Oklab, Cam16UcsJab compose-only) x f32/f64 x {opaque, Alpha, PreAlpha}, the eleven separable modes are compared with the W3C general formula and B functions and the six Porter-Duff operators with their premultiplied formulas on inputs drawn from the level grid {0, 1/4, 1/2, 3/4, 1}, +-ulp straddle points of every branch (2s = 1, 4d = 1, s = 1, d = 0), MIN_POSITIVE-scale and seeded values, with alphas {0, MIN_POSITIVE, 1e-9, 1/2, 1, seeded} (6000 cases per type quick, 600000 thorough); results and alphas must lie in [0,1] and be finite, the opaque form must equal the plain blend function, commutative modes and xor/plus must be symmetric, transparent-over-b == b and opaque-over-x == source must hold bit for bit, premultiply/unpremultiply must round-trip (zero colour at alpha 0), and BlendWith is driven with a closure and with Equations. The same driver runs under Miri and ASan because the blend loops go through cast::into_array(_mut).",
+        "design_ref": "DESIGN.md section 3, C08",
+        "note": TRUST + " A PreAlpha operand carries only colour*alpha: its blend-function argument is colour/alpha rounded to the component type, as the premultiplied W3C formula prescribes.",
+        "technique": "runtime monitoring: differential check against the W3C formulas in f64 + algebraic identities between real calls; Miri + AddressSanitizer on the casting loops",
+    },
     "C10": {
         "text": "Variant-agreement and algebra monitor over real calls, 19 colour types x f32/f64: Mix/MixAssign (ends at factor 0/1, factors outside [0,1] bit-identical to the nearest end, component-wise between the inputs and equal to the lerp, hue on the shorter arc by the factor's fraction); Lighten/Darken and Saturate/Desaturate in relative and fixed form (value equals the documented formula, in range, other components bit-identical, factor 1 reaches the limit, monotone over a 33-step ladder, darken(x) == lighten(-x)); ShiftHue/WithHue/SetHue/GetHue and the five colour-scheme helpers as documented hue shifts; Add/Sub/Mul/Div with colours and scalars against plain arithmetic in the same float type. For every operator the assigning form, the slice form (lengths 0, 1, 7) and the Alpha-wrapped form are compared bit for bit with the by-value form on the bare colour. The clamp variants are covered by the C03 monitor (by-value vs assigning vs contract).",
         "design_ref": "DESIGN.md section 3, C10",
